@@ -29,7 +29,10 @@ def cells(thorough=False):
     """Cell descriptors: None (unbound) or [kind, text, datatype, lang]."""
     out = [None,
            ["I", "http://ex.org/a", None, None], ["I", "http://ex.org/b#c?d=e&f", None, None], ["I", "urn:x:y", None, None],
-           ["B", "b1", None, None], ["B", "b2", None, None]]
+           ["B", "b1", None, None], ["B", "b2", None, None],
+           # the same text as a term of another kind in the same table (IRI / blank-node label / typed form as a plain literal)
+           ["L", "http://ex.org/a", None, None], ["L", "b1", None, None], ["L", "1", None, None], ["L", "true", None, None], ["L", "http://ex.org/a", None, "en"],
+           ["L", "http://ex.org/a", "http://ex.org/dt", None]]
     strings = [""] + SIGMA + TWO
     if thorough:
         strings += ["".join(p) for p in itertools.product(SIGMA[:10], repeat=2) if "".join(p) not in TWO]
@@ -48,7 +51,7 @@ def cells(thorough=False):
 
 SUB = [None, ["I", "http://ex.org/a", None, None], ["B", "b1", None, None], ["L", "", None, None], ["L", "0", str(XSD.integer), None],
        ["L", "a\tb", None, None], ["L", '"\n', None, "en"], ["L", "\r", None, None], ["L", "\U0001F600", "http://ex.org/dt", None],
-       ["B", "b2", None, None]]
+       ["B", "b2", None, None], ["L", "http://ex.org/a", None, None], ["L", "b1", None, None]]
 
 
 def mk(d):
@@ -302,7 +305,7 @@ def run(ctx):
             ctx.violation(sig, {"ask": val}, det)
     ctx.cov["cell_alphabet"] = len(cells(thorough))
     ctx.cov["exhaustive"] = True
-    ctx.cov["rule"] = ("Tables: 1x1 over the cell alphabet K, 1 var x 2 rows (K^2), 2 vars x 1 row (K^2), 2x2 over a 10-cell sub-alphabet (10^4), empty "
+    ctx.cov["rule"] = ("Tables: 1x1 over the cell alphabet K, 1 var x 2 rows (K^2), 2 vars x 1 row (K^2), 2x2 over a 12-cell sub-alphabet (12^4), empty "
                        "tables, all-unbound row, trailing unbound column, both ASK values; each through JSON, XML (round trip), TSV (4 spellings of an "
                        "independent writer -> rdflib reader) and CSV (rdflib writer -> stdlib csv). Non-trivial: a cell needs escaping, is falsy, "
                        "non-BMP, a blank node or unbound.")
@@ -325,7 +328,7 @@ def replay(ctx, case):
 
 META = {
     "text": "Exhaustive enumeration of small SELECT result tables (all 1- and 2-cell tables over a ~70-term cell alphabet incl. unbound, all 2x2 tables "
-            "over a 10-cell sub-alphabet, degenerate shapes) and both ASK results: SPARQL JSON and XML must round-trip variables, row sequence and "
+            "over a 12-cell sub-alphabet, degenerate shapes) and both ASK results: SPARQL JSON and XML must round-trip variables, row sequence and "
             "every cell; rdflib's TSV reader must recover the terms of four spellings produced by an independent W3C-conformant TSV writer; the CSV "
             "output read by the standard csv module must keep the row sequence and each bound cell's string value.",
     "note": "Cell alphabet limited to strings of <=2 characters over 13 characters (quotes, backslash, TAB, LF, CR, space, comma, non-ASCII, non-BMP); "
